@@ -245,11 +245,37 @@ def reconfigured_handler_cases(ctx, n):
 
 def run(ctx):
     corpus(ctx)
+    voxel_count_corpus(ctx)
     optimized_cases(ctx, ctx.scale(25, 150))
     reconfigured_handler_cases(ctx, ctx.scale(30, 300))
     complementary_cases(ctx, ctx.scale(60, 600))
     group_dtype_cases(ctx, ctx.scale(40, 400))
     run_cases(ctx, ctx.scale(500, 5000), "rand")
+
+
+def voxel_count_corpus(ctx):
+    """foregrounds of exactly 255 / 256 / 257 / 512 / 65536 voxels on either side or both (narrow label dtypes; semantic and
+    instance input): counts at which a sum, a count or an emptiness test carried out in the label map's own dtype comes out as zero"""
+    rng = ctx.rng
+    hnd = rand_handler(rng, ["DSC", "IOU"])
+    gm = ["DSC", "IOU", "RVD"]
+
+    def blob(n, shape, off):
+        a = np.zeros(shape, np.uint8)
+        flat = a.reshape(-1)
+        flat[off:off + n] = 1
+        return a
+    sizes = (255, 256, 257, 512) if ctx.quick else (255, 256, 257, 512, 768, 1024, 65536)
+    for n in sizes:
+        shape = (24, 48) if n <= 1024 else (300, 300)
+        for m in sorted({n, 256, 300}):
+            if m > shape[0] * shape[1] - 40:
+                continue
+            pred, ref = blob(n, shape, 7), blob(m, shape, 19)
+            for it, dt in (("SEMANTIC", np.uint8), ("MATCHED", np.uint8), ("UNMATCHED", np.uint8), ("MATCHED", np.uint16)):
+                cfg = E.mk_cfg(it, ["IOU", "DSC"], matcher=E.naive("IOU", (1, 2)) if it != "MATCHED" else None, handler=hnd)
+                ctx.count("voxel_count_corpus")
+                one_case(ctx, pred.astype(dt), ref.astype(dt), cfg, gm, f"corpus.voxel-count-{n}-{m}")
 
 
 def search(ctx):
